@@ -46,9 +46,128 @@ type Driver interface {
 	Snap(r *Rec, buf []byte)
 	// Reset re-initialises the object the documented way.
 	Reset(how int)
+	// Reinit re-initialises the SAME object through its init operation for a
+	// possibly different caller-array configuration (new arrays, or none).
+	Reinit(c Cfg)
 	// Continues: after this definitive verdict the same connection carries
 	// a further unit starting at the returned offset.
 	Continues(err sipsp.ErrorHdr) bool
+	// Accumulates: the further unit is parsed into the SAME object without a
+	// reset (ParseAllContactValues / ParseAllPAIValues called once per header
+	// body, adding to one PContacts / PPAIs).
+	Accumulates() bool
+}
+
+// Caller arrays are handed to the library as windows (len n) of larger
+// backing arrays (cap n+2) whose tail holds sentinel values: a caller that
+// gives the library pool[:n] expects it to keep to those n elements. Arrays()
+// reports what the object's exported slices look like now and whether the tail
+// is untouched.
+const canaryType = sipsp.HdrT(0x7a7a)
+
+func mkHdrs(n int) []sipsp.Hdr {
+	b := make([]sipsp.Hdr, n+2)
+	b[n].Type, b[n+1].Type = canaryType, canaryType
+	return b[:n]
+}
+
+func mkVals(n int) []sipsp.PFromBody {
+	b := make([]sipsp.PFromBody, n+2)
+	b[n].Q, b[n+1].Q = 0x7a7a, 0x7a7a
+	return b[:n]
+}
+
+func mkParams(n int) []sipsp.URIParam {
+	b := make([]sipsp.URIParam, n+2)
+	b[n].T, b[n+1].T = 0x7a7a, 0x7a7a
+	return b[:n]
+}
+
+func mkUHdrs(n int) []sipsp.URIHdr {
+	b := make([]sipsp.URIHdr, n+2)
+	b[n].Name.Len, b[n+1].Name.Len = 0x7a7a, 0x7a7a
+	return b[:n]
+}
+
+func chkHdrs(cur []sipsp.Hdr, mine []sipsp.Hdr, want int) string {
+	if want < 0 {
+		return ""
+	}
+	if len(cur) != want {
+		return fmt.Sprintf("the caller's header array has %d elements but the object now uses %d", want, len(cur))
+	}
+	t := mine[:want+2]
+	if t[want].Type != canaryType || t[want+1].Type != canaryType || t[want].Name.Len != 0 || t[want].Val.Len != 0 {
+		return fmt.Sprintf("elements behind the caller's header array of %d were written", want)
+	}
+	return ""
+}
+
+func chkVals(cur []sipsp.PFromBody, mine []sipsp.PFromBody, want int) string {
+	if want < 0 {
+		return ""
+	}
+	if len(cur) != want {
+		return fmt.Sprintf("the caller's contact array has %d elements but the object now uses %d", want, len(cur))
+	}
+	t := mine[:want+2]
+	if t[want].Q != 0x7a7a || t[want+1].Q != 0x7a7a || t[want].V.Len != 0 {
+		return fmt.Sprintf("elements behind the caller's contact array of %d were written", want)
+	}
+	return ""
+}
+
+// ArrayChecker is implemented by drivers that hand caller arrays to the library.
+type ArrayChecker interface{ Arrays() string }
+
+func (d *MsgD) Arrays() string {
+	if d.cfg.HdrCap == -2 {
+		return ""
+	}
+	if s := chkHdrs(d.M.HL.Hdrs, d.hdrs, d.cfg.HdrCap); s != "" {
+		return s
+	}
+	return chkVals(d.M.PV.Contacts.Vals, d.contacts, d.cfg.ConCap)
+}
+
+func (d *HeadersD) Arrays() string {
+	if s := chkHdrs(d.HL.Hdrs, d.hdrs, d.cfg.HdrCap); s != "" {
+		return s
+	}
+	return chkVals(d.PV.Contacts.Vals, d.vals, d.cfg.ConCap)
+}
+
+func (d *HdrLineD) Arrays() string  { return chkVals(d.PV.Contacts.Vals, d.vals, d.cfg.ConCap) }
+func (d *ContactsD) Arrays() string { return chkVals(d.C.Vals, d.vals, d.cfg.ConCap) }
+
+func (d *URIParamsD) Arrays() string {
+	n := d.cfg.ParCap
+	if n < 0 {
+		return ""
+	}
+	if len(d.L.Params) != n {
+		return fmt.Sprintf("the caller's URI parameter array has %d elements but the object now uses %d", n, len(d.L.Params))
+	}
+	t := d.arr[:n+2]
+	if t[n].T != 0x7a7a || t[n+1].T != 0x7a7a || t[n].Param.All.Len != 0 {
+		return fmt.Sprintf("elements behind the caller's URI parameter array of %d were written", n)
+	}
+	return ""
+}
+
+func (d *URIHdrsD) Arrays() string {
+	n := d.cfg.ParCap
+	if n < 0 {
+		return ""
+	}
+	if len(d.L.Hdrs) != n {
+		return fmt.Sprintf("the caller's URI header array has %d elements but the object now uses %d", n, len(d.L.Hdrs))
+	}
+	t := d.arr[:n+2]
+	if t[n].Name.Len != 0x7a7a || t[n+1].Name.Len != 0x7a7a || t[n].All.Len != 0 {
+		return fmt.Sprintf("elements behind the caller's URI header array of %d were written", n)
+	}
+	return ""
 }
 
 // IsError implements DESIGN.md 6 convention 7.
@@ -79,7 +198,7 @@ func New(c Cfg) Driver {
 	case "contacts":
 		d := &ContactsD{cfg: c}
 		if c.ConCap >= 0 {
-			d.vals = make([]sipsp.PFromBody, c.ConCap)
+			d.vals = mkVals(c.ConCap)
 			d.C.Init(d.vals)
 		}
 		return d
@@ -96,14 +215,14 @@ func New(c Cfg) Driver {
 	case "uriparams":
 		d := &URIParamsD{cfg: c}
 		if c.ParCap >= 0 {
-			d.arr = make([]sipsp.URIParam, c.ParCap)
+			d.arr = mkParams(c.ParCap)
 			d.L.Init(d.arr)
 		}
 		return d
 	case "urihdrs":
 		d := &URIHdrsD{cfg: c}
 		if c.ParCap >= 0 {
-			d.arr = make([]sipsp.URIHdr, c.ParCap)
+			d.arr = mkUHdrs(c.ParCap)
 			d.L.Init(d.arr)
 		}
 		return d
@@ -124,15 +243,16 @@ type MsgD struct {
 	M        sipsp.PSIPMsg
 	hdrs     []sipsp.Hdr
 	contacts []sipsp.PFromBody
+	pool     arrayPool
 }
 
 func newMsg(c Cfg) *MsgD {
 	d := &MsgD{cfg: c}
 	if c.HdrCap >= 0 {
-		d.hdrs = make([]sipsp.Hdr, c.HdrCap)
+		d.hdrs = mkHdrs(c.HdrCap)
 	}
 	if c.ConCap >= 0 {
-		d.contacts = make([]sipsp.PFromBody, c.ConCap)
+		d.contacts = mkVals(c.ConCap)
 	}
 	if c.HdrCap != -2 {
 		d.M.Init(nil, d.hdrs, d.contacts)
@@ -188,7 +308,7 @@ type HdrLineD struct {
 
 func (d *HdrLineD) init() {
 	if d.cfg.ConCap >= 0 {
-		d.vals = make([]sipsp.PFromBody, d.cfg.ConCap)
+		d.vals = mkVals(d.cfg.ConCap)
 		d.PV.Init(d.vals)
 	}
 }
@@ -220,6 +340,7 @@ func (d *HdrLineD) Continues(err sipsp.ErrorHdr) bool { return false }
 // ---------------------------------------------------------------- headers
 
 type HeadersD struct {
+	pool arrayPool
 	cfg  Cfg
 	HL   sipsp.HdrLst
 	PV   sipsp.PHdrVals
@@ -229,11 +350,11 @@ type HeadersD struct {
 
 func (d *HeadersD) init() {
 	if d.cfg.HdrCap >= 0 {
-		d.hdrs = make([]sipsp.Hdr, d.cfg.HdrCap)
+		d.hdrs = mkHdrs(d.cfg.HdrCap)
 		d.HL.Hdrs = d.hdrs
 	}
 	if d.cfg.ConCap >= 0 {
-		d.vals = make([]sipsp.PFromBody, d.cfg.ConCap)
+		d.vals = mkVals(d.cfg.ConCap)
 		d.PV.Init(d.vals)
 	}
 }
@@ -287,6 +408,7 @@ func (d *NameAddrD) Continues(err sipsp.ErrorHdr) bool { return err == sipsp.Err
 // ---------------------------------------------------------------- contacts / pais
 
 type ContactsD struct {
+	pool arrayPool
 	cfg  Cfg
 	C    sipsp.PContacts
 	vals []sipsp.PFromBody
@@ -302,7 +424,7 @@ func (d *ContactsD) Reset(how int) {
 		d.C.Init(d.vals)
 	}
 }
-func (d *ContactsD) Continues(err sipsp.ErrorHdr) bool { return false }
+func (d *ContactsD) Continues(err sipsp.ErrorHdr) bool { return err == sipsp.ErrHdrOk }
 
 type PAIsD struct{ C sipsp.PPAIs }
 
@@ -317,7 +439,7 @@ func (d *PAIsD) Reset(how int) {
 		d.C.Reset()
 	}
 }
-func (d *PAIsD) Continues(err sipsp.ErrorHdr) bool { return false }
+func (d *PAIsD) Continues(err sipsp.ErrorHdr) bool { return err == sipsp.ErrHdrOk }
 
 // ---------------------------------------------------------------- cseq / callid / uint
 
@@ -497,28 +619,24 @@ func (d *URID) Continues(err sipsp.ErrorHdr) bool { return false }
 func Renew(d Driver, c Cfg) Driver {
 	switch x := d.(type) {
 	case *MsgD:
-		if c.Kind != "msg" || cap(x.hdrs) < maxi(c.HdrCap, 0) || cap(x.contacts) < maxi(c.ConCap, 0) {
+		if c.Kind != "msg" || cap(x.hdrs) < maxi(c.HdrCap, 0)+2 || cap(x.contacts) < maxi(c.ConCap, 0)+2 {
 			break
 		}
-		h, ct := x.hdrs, x.contacts
+		h, ct := x.hdrs[:cap(x.hdrs)], x.contacts[:cap(x.contacts)]
 		*x = MsgD{cfg: c}
 		if c.HdrCap >= 0 {
+			for i := range h {
+				h[i] = sipsp.Hdr{}
+			}
+			h[c.HdrCap].Type, h[c.HdrCap+1].Type = canaryType, canaryType
 			x.hdrs = h[:c.HdrCap]
-			if x.hdrs == nil {
-				x.hdrs = make([]sipsp.Hdr, 0)
-			}
-			for i := range x.hdrs {
-				x.hdrs[i] = sipsp.Hdr{}
-			}
 		}
 		if c.ConCap >= 0 {
+			for i := range ct {
+				ct[i] = sipsp.PFromBody{}
+			}
+			ct[c.ConCap].Q, ct[c.ConCap+1].Q = 0x7a7a, 0x7a7a
 			x.contacts = ct[:c.ConCap]
-			if x.contacts == nil {
-				x.contacts = make([]sipsp.PFromBody, 0)
-			}
-			for i := range x.contacts {
-				x.contacts[i] = sipsp.PFromBody{}
-			}
 		}
 		if c.HdrCap != -2 {
 			x.M.Init(nil, x.hdrs, x.contacts)
@@ -580,3 +698,141 @@ func maxi(a, b int) int {
 	}
 	return b
 }
+
+// ---------------------------------------------------------------- Reinit
+
+func valsFor(n int) []sipsp.PFromBody {
+	if n < 0 {
+		return nil
+	}
+	return mkVals(n)
+}
+
+// arrayPool recycles caller arrays the way an application does: an array that
+// an object's init operation detached goes back to the pool (the library's
+// Init()/Reset() is documented to clean what it detaches) and a later init
+// operation of a matching size gets it again.
+type arrayPool struct {
+	hdrs map[int][]sipsp.Hdr
+	vals map[int][]sipsp.PFromBody
+}
+
+func (p *arrayPool) takeHdrs(n int) []sipsp.Hdr {
+	if n < 0 {
+		return nil
+	}
+	if a, ok := p.hdrs[n]; ok {
+		delete(p.hdrs, n)
+		return a
+	}
+	return mkHdrs(n)
+}
+
+func (p *arrayPool) takeVals(n int) []sipsp.PFromBody {
+	if n < 0 {
+		return nil
+	}
+	if a, ok := p.vals[n]; ok {
+		delete(p.vals, n)
+		return a
+	}
+	return mkVals(n)
+}
+
+func (p *arrayPool) give(h []sipsp.Hdr, v []sipsp.PFromBody) {
+	if p.hdrs == nil {
+		p.hdrs, p.vals = map[int][]sipsp.Hdr{}, map[int][]sipsp.PFromBody{}
+	}
+	if h != nil {
+		p.hdrs[len(h)] = h
+	}
+	if v != nil {
+		p.vals[len(v)] = v
+	}
+}
+
+func (d *MsgD) Reinit(c Cfg) {
+	if c.HdrCap == -2 || d.cfg.HdrCap == -2 {
+		d.M.Reset()
+		return
+	}
+	oh, ov := d.hdrs, d.contacts
+	d.cfg = c
+	d.hdrs, d.contacts = d.pool.takeHdrs(c.HdrCap), d.pool.takeVals(c.ConCap)
+	d.M.Init(nil, d.hdrs, d.contacts)
+	d.pool.give(oh, ov) // detached by Init
+}
+func (d *FLineD) Reinit(c Cfg) { d.Reset(ByInit) }
+func (d *HdrLineD) Reinit(c Cfg) {
+	d.cfg = c
+	d.H.Reset()
+	d.vals = valsFor(c.ConCap)
+	d.PV.Init(d.vals)
+}
+func (d *HeadersD) Reinit(c Cfg) {
+	oh, ov := d.hdrs, d.vals
+	d.cfg = c
+	d.HL.Reset()
+	d.hdrs = d.pool.takeHdrs(c.HdrCap)
+	d.HL.Hdrs = d.hdrs
+	d.vals = d.pool.takeVals(c.ConCap)
+	d.PV.Init(d.vals)
+	d.pool.give(oh, ov)
+}
+func (d *NameAddrD) Reinit(c Cfg) { d.cfg = c; d.Reset(ByInit) }
+func (d *ContactsD) Reinit(c Cfg) {
+	ov := d.vals
+	d.cfg = c
+	d.C.Reset()
+	d.vals = d.pool.takeVals(c.ConCap)
+	d.C.Init(d.vals)
+	d.pool.give(nil, ov)
+}
+func (d *PAIsD) Reinit(c Cfg)   { d.Reset(ByInit) }
+func (d *CSeqD) Reinit(c Cfg)   { d.Reset(ByInit) }
+func (d *CallIDD) Reinit(c Cfg) { d.Reset(ByInit) }
+func (d *UIntD) Reinit(c Cfg)   { d.Reset(ByInit) }
+func (d *TokParamD) Reinit(c Cfg) {
+	d.cfg = c
+	d.Reset(ByInit)
+}
+func (d *URIParamsD) Reinit(c Cfg) {
+	d.cfg = c
+	d.L.Reset()
+	d.arr = nil
+	if c.ParCap >= 0 {
+		d.arr = mkParams(c.ParCap)
+	}
+	d.L.Init(d.arr)
+	d.vno = 0
+}
+func (d *URIHdrsD) Reinit(c Cfg) {
+	d.cfg = c
+	d.L.Reset()
+	d.arr = nil
+	if c.ParCap >= 0 {
+		d.arr = mkUHdrs(c.ParCap)
+	}
+	d.L.Init(d.arr)
+	d.vno = 0
+}
+func (d *SkipQuotedD) Reinit(c Cfg) {}
+func (d *URID) Reinit(c Cfg)        { d.Reset(ByInit) }
+
+// ---------------------------------------------------------------- Accumulates
+
+func (d *MsgD) Accumulates() bool        { return false }
+func (d *FLineD) Accumulates() bool      { return false }
+func (d *HdrLineD) Accumulates() bool    { return false }
+func (d *HeadersD) Accumulates() bool    { return false }
+func (d *NameAddrD) Accumulates() bool   { return false }
+func (d *CSeqD) Accumulates() bool       { return false }
+func (d *CallIDD) Accumulates() bool     { return false }
+func (d *UIntD) Accumulates() bool       { return false }
+func (d *TokParamD) Accumulates() bool   { return false }
+func (d *URIParamsD) Accumulates() bool  { return false }
+func (d *URIHdrsD) Accumulates() bool    { return false }
+func (d *SkipQuotedD) Accumulates() bool { return false }
+func (d *URID) Accumulates() bool        { return false }
+func (d *ContactsD) Accumulates() bool   { return true }
+func (d *PAIsD) Accumulates() bool       { return true }
